@@ -23,13 +23,13 @@ from fractions import Fraction as F
 
 ID = "C08"
 BOUND = {
-    "quick": "700 feature sets (1..6 polylines of 2..6 vertices, track collections and networks, one network edge in 4 "
+    "quick": "1500 feature sets (1..6 polylines of 2..6 vertices, track collections and networks, one network edge in 4 "
              "added after the index is built): 60% on integer/dyadic coordinates with margins {0,1/8,1/4,1/2} and cell "
              "sizes that keep the grid exact (square and non-square, incl. default resolution on 25/50/100-wide extents), "
              "40% raw floats with margins in [0,0.3] and arbitrary / default resolution; per set: all cells, <= ~120 point "
              "queries (vertices, cell corners / edge midpoints / centres, extent corners, random), ~20 segment queries, "
              "3 track queries, 12 points x 9 distances (0 .. grid size) neighbourhood queries",
-    "thorough": "same generator, 12000 feature sets",
+    "thorough": "same generator, 40000 feature sets",
 }
 RULE = ("case = one feature set + index parameters + a seed from which the query points/segments/distances are derived "
         "once the extent is known; only extents with >= 1 cell per axis (non-degenerate bbox, cell size <= extent, aspect "
@@ -161,7 +161,7 @@ def _one_case(rnd, c):
 
 def cases(tier, seed):
     rnd = random.Random(seed)
-    n = 700 if tier == "quick" else 12000
+    n = 1500 if tier == "quick" else 40000
     for c in range(n):
         yield _one_case(rnd, c)
 
